@@ -1537,6 +1537,9 @@ func (f *Frame) varBefore(blk *ssa.BasicBlock, idx int, name string, pos token.P
 				continue
 			}
 			if a, ok := v.(*ssa.Alloc); ok {
+				if fv, ok := f.finalVals[a]; ok {
+					return Val{Comps: fv.Comps}, true
+				}
 				av := f.val(a, a.Type())
 				return f.g.loadVal(st, av.Comps[0], a.Type().(*types.Pointer).Elem()), true
 			}
